@@ -458,9 +458,11 @@ pub fn c15(run: &mut Run) {
         if let Ok(c) = serde_json::from_value::<C15Case>(case.clone()) {
             let v = run_positive(&[c], "c15-replay", 0);
             report(run, "c15_compiled", v);
+            run.mark_replay_ran();
         } else if let Ok(m) = serde_json::from_value::<Mutant>(case.clone()) {
             let v = run_negative(&[m], "c15-replay-neg", 0);
             report(run, "c15_rejection", v);
+            run.mark_replay_ran();
         }
         return;
     }
